@@ -1,62 +1,66 @@
 #!/usr/bin/env python3
-"""selftest/benign.py [-k substr]: every change under /verif/benign/ is a correct feature addition or refactoring written by an
-independent sub-agent (task description + worktree only; the suite passes with it). Every check must stay silent on it, except
-where meta.json lists an expected, explained alarm. Works on a scratch copy of /repo; not a registered check."""
-import json, os, shutil, subprocess, sys, tempfile
+"""selftest/benign.py [-k substr] [-j N]: every change under /verif/benign/ is a correct feature addition or refactoring written by
+an independent sub-agent (task description + worktree only; the suite passes with it). Every check must stay silent on it, except
+where meta.json lists an expected, explained alarm. Works on scratch copies of /repo; not a registered check."""
+import argparse, json, os, shutil, subprocess, sys, tempfile
 HERE = os.path.dirname(os.path.abspath(__file__))
 VERIF = os.path.dirname(HERE)
 sys.path.insert(0, HERE)
 sys.path.insert(0, os.path.join(VERIF, 'rules'))
 import run as st
 import props
+import par
 
-flt = sys.argv[2] if len(sys.argv) > 2 and sys.argv[1] == '-k' else ''
+ap = argparse.ArgumentParser()
+ap.add_argument('-k', default='')
+ap.add_argument('-j', type=int, default=6)
+ap.add_argument('--tier', default='thorough')
+a = ap.parse_args()
 tmp = tempfile.mkdtemp(prefix='yarel_benign_')
-evdir = os.path.join(VERIF, 'evidence')
-evsave = tempfile.mkdtemp(prefix='yarel_ev_')
-for f in os.listdir(evdir):
-    shutil.copy(os.path.join(evdir, f), evsave)
-ok_all = True
-results = []
-try:
-    for bid in sorted(os.listdir(os.path.join(VERIF, 'benign'))):
-        d = os.path.join(VERIF, 'benign', bid)
-        if flt and flt not in bid:
-            continue
-        meta = json.load(open(os.path.join(d, 'meta.json')))
-        root = os.path.join(tmp, bid)
-        st.copy_repo(root)
+
+
+def one(bid, slot, env):
+    d = os.path.join(VERIF, 'benign', bid)
+    meta = json.load(open(os.path.join(d, 'meta.json')))
+    root = os.path.join(tmp, bid)
+    st.copy_repo(root)
+    try:
         pf = os.path.join(d, 'patch.rebased.diff') if os.path.exists(os.path.join(d, 'patch.rebased.diff')) else os.path.join(d, 'patch.diff')
         p = subprocess.run(['patch', '-p1', '--no-backup-if-mismatch', '-i', pf], cwd=root, capture_output=True, text=True)
         if p.returncode != 0:
-            print('%-55s PATCH DOES NOT APPLY (skipped: %s)' % (bid, meta.get('if_not_applicable', 'no reason recorded')))
-            if not meta.get('if_not_applicable'):
-                ok_all = False
-            continue
+            return (None, '%-55s PATCH DOES NOT APPLY (skipped: %s)' % (bid, meta.get('if_not_applicable', 'no reason recorded')),
+                    bool(meta.get('if_not_applicable')))
         fired = []
         for prop in sorted(props.PROPS):
-            rc, out = st.run_check(prop, root, 'thorough')     # both worlds: a rule must be silent on optimised MIR too
+            rc, out = par.run_check(prop, root, a.tier, env)     # both worlds: a rule must be silent on optimised MIR too
             if rc != 0:
                 first = [l for l in out.splitlines() if l.startswith('  violation:') or l.startswith('CHECK-BROKEN')]
                 fired.append((prop, rc, first[0][:200] if first else ''))
         if fired and all(rc == 2 and 'extract' in msg for (_, rc, msg) in fired) and meta.get('if_not_applicable'):
-            print('%-55s DOES NOT BUILD ON THIS TREE (skipped: %s)' % (bid, meta['if_not_applicable'][:80]))
-            shutil.rmtree(root, ignore_errors=True)
-            continue
+            return (None, '%-55s DOES NOT BUILD ON THIS TREE (skipped: %s)' % (bid, meta['if_not_applicable'][:80]), True)
         expected = set(meta.get('expected_alarms', []))
         bad = [x for x in fired if x[0] not in expected]
-        ok_all &= not bad
-        print('%-55s %s' % (bid, 'silent' if not fired else ('expected alarms only: %s' % sorted(x[0] for x in fired) if not bad else 'FALSE ALARM')))
+        msg = '%-55s %s' % (bid, 'silent' if not fired else ('expected alarms only: %s' % sorted(x[0] for x in fired) if not bad else 'FALSE ALARM'))
         for x in bad:
-            print('      %s rc=%d %s' % x)
-        results.append({'change': bid, 'fired': [x[0] for x in fired], 'ok': not bad})
+            msg += '\n      %s rc=%d %s' % x
+        return ({'change': bid, 'fired': [x[0] for x in fired], 'ok': not bad}, msg, not bad)
+    finally:
         shutil.rmtree(root, ignore_errors=True)
+
+
+ids = [b for b in sorted(os.listdir(os.path.join(VERIF, 'benign'))) if a.k in b]
+ok_all = True
+results = []
+try:
+    for (res, msg, ok) in par.pool_map(ids, one, a.j):
+        print(msg)
+        ok_all &= ok
+        if res:
+            results.append(res)
 finally:
-    for f in os.listdir(evsave):
-        shutil.copy(os.path.join(evsave, f), evdir)
-    shutil.rmtree(evsave, ignore_errors=True)
     shutil.rmtree(tmp, ignore_errors=True)
-if not flt:
+    par.cleanup()
+if not a.k:
     json.dump({'ok': ok_all, 'results': results}, open(os.path.join(HERE, 'last_benign_result.json'), 'w'), indent=1)
 print('BENIGN %s: %d changes' % ('OK' if ok_all else 'FAILED', len(results)))
 sys.exit(0 if ok_all else 1)
